@@ -44,6 +44,9 @@ FINAL = ('final', 'final_sd')
 SMALL += [
     {'prod': [1], 'recv': [5, 5], 'net': 'final_sd', 'emit': False},
     {'prod': [0], 'recv': [5], 'net': 'final_sd', 'emit': True},
+    # the application waits without a timeout when the connection ends
+    {'prod': [0], 'recv': [None], 'net': 'final', 'emit': False},
+    {'prod': [1], 'recv': [None, None], 'net': 'final_sd', 'emit': False},
 ]
 
 # reconnections that need several attempts: 'fails' attempts are refused by
@@ -150,6 +153,10 @@ class SyncScenario:
 
             @connected.setter
             def connected(self_, v):
+                # (the assignment is a step of its own: another thread may
+                # run between the statement before it and the store)
+                if sched.me() is not None:
+                    sched.yield_point('connected.assign')
                 self_._c = v
                 if v is False and scen.armed:
                     # the exact moment the connection ended for good
@@ -601,7 +608,7 @@ def run(ctx):
     ctx.require('reconnections_needing_several_attempts', 10)
     ctx.extra['scenarios'] = {}
     limit = 1200 if ctx.tier == 'quick' else 40000
-    order = [0, 5, 8, 11, 14, 1, 6, 9, 12, 15, 2, 7, 10, 13, 3, 4]
+    order = [0, 5, 8, 11, 13, 16, 1, 6, 9, 12, 14, 17, 2, 7, 10, 15, 3, 4]
     k = ctx.shard * 10**6
     # breadth first: a few schedules of every small scenario (both
     # implementations) before the deep searches, so that a slow machine does
